@@ -1,11 +1,11 @@
-\* exhaustive + generation: every sequence of <= 3 runs; laws of C12 on the oracle; CASE emission
+\* exhaustive + generation: every sequence of <= 2 runs whose problems may lie in files the run did not check
 SPECIFICATION Spec
 CONSTANTS
   Files <- MCFiles
   D <- MCD
   NameSeq <- MCNames
-  MaxRuns = 3
-  Foreign = FALSE
+  MaxRuns = 2
+  Foreign = TRUE
 INVARIANTS OrderIndependent RepeatIdempotent AnnotationExact AnySemantics AllSemantics Emit
 PROPERTY AnyMonotone
 CHECK_DEADLOCK FALSE
